@@ -901,7 +901,7 @@ void Model::snapshot(Snap& s) const {
 }
 long Model::live_tracked() const {
     long n = 0;
-    auto tr = [&](int ev) { return ev >= 0 && d_->events[ev].size_class >= 2; };
+    auto tr = [&](int ev) { return ev >= 0 && d_->events[ev].size_class >= 2 && d_->events[ev].size_class <= 6; };
     for (auto& I : inst_) {
         for (auto& q : I.q_msg) if (tr(q.e.ev)) ++n;
         for (auto& q : I.q_def) if (tr(q.e.ev)) ++n;
